@@ -160,6 +160,10 @@ func (w *c11World) list(feature string) []*qosmanagerUtil.PodEvictInfo {
 	}
 }
 
+// which pod keys the enabled features read (the others are not varied in the whole-round parts)
+func c11NeedsUsage(fs []string) bool { return c11Has(fs, c11FBE) || c11Has(fs, c11FUsed) }
+func c11NeedsReq(fs []string) bool   { return c11Has(fs, c11FBE) || c11Has(fs, c11FAlloc) }
+
 func c11BuilderCfg(th int32) c11MCfg {
 	return c11MCfg{BETarget: 125, NodeUsed: 6250, Threshold: 1, Lower: 0, UsedPrioTh: th, AllocPrioTh: th, AllocThreshold: 1, AllocLower: 0, Allocatable: c11NodeMilli}
 }
